@@ -800,6 +800,10 @@ def r3_ranges(program, rep):
                 nu, lambda n: n is n2 or (n in poor and not R.cfg.dominates(
                     n, n2)), targets=[R.cfg.exit],
                 avoid=[R.cfg.nodes[i] for i in hyp.dead])
+    if not okm and _refine_merge_extra_conditions(rm):
+        raise AnalysisError("_refine_merge: the second down-check depends "
+                            "on a further condition (%s); not decided" %
+                            ", ".join(_refine_merge_extra_conditions(rm)))
     rep.check(okm, "C04-R3", qual(rm), "down-check, then up-check, then the "
               "down-check again iff the up-check changed the merge",
               construct="refine order", node=rm)
@@ -1042,6 +1046,22 @@ def r4_aliases_effects(program, rep):
               node=gm)
 
 
+
+def _refine_merge_extra_conditions(fn):
+    """Tests in _refine_merge that look at something other than the
+    goodness of a merge and the up-check's 'changed' flag (e.g. compare
+    insertion indices): a further condition under which a step is skipped,
+    whose justification these rules cannot judge."""
+    out = []
+    for n in ast.walk(fn):
+        if isinstance(n, (ast.If, ast.IfExp, ast.While)):
+            for x in ast.walk(n.test):
+                if isinstance(x, ast.Attribute) and x.attr != "goodness":
+                    out.append(x.attr)
+                elif isinstance(x, ast.Call):
+                    out.append(unparse(x.func))
+    return sorted(set(out))
+
 def _refine_order(program, rep):
     """_refine_merge: what it returns, by cases.  When the up-check changed
     a merge that is still good enough, the value returned is the result of a
@@ -1089,6 +1109,12 @@ def _refine_order(program, rep):
     poor = returned((g1, False))
     ok = okarg and again == [plain(DC2)] and kept == [plain(M_UP)] and \
         poor == [plain(DC1)]
+    if not ok and _refine_merge_extra_conditions(fn):
+        raise AnalysisError("_refine_merge: a step is taken or skipped "
+                            "under a further condition (%s); whether the "
+                            "merge returned is still checked against "
+                            "everything it sits above is not decided" %
+                            ", ".join(_refine_merge_extra_conditions(fn)))
     rep.check(ok, "C04-R3", inst, "a merge changed by the up-check and "
               "still good enough is down-checked again before it is "
               "returned; otherwise the up-checked (unchanged) or the "
